@@ -76,12 +76,16 @@ def _trim_common_context(target: str, new_val: str) -> tuple[int, int]:
 
         return -1
 
+    def splits_bold_marker(cut: int) -> bool:
+        # The cut falls between the two asterisks of a ** delimiter: "balanced" only because the marker was halved.
+        return 0 < cut < len(target) and target[cut - 1] == "*" and target[cut] == "*"
+
     # Fix 5.5: Backtrack prefix if it leaves unbalanced markdown markers in remaining
     while prefix_len > 0:
         text_slice = target[:prefix_len]
         b_count = text_slice.count("**")
         u_count = text_slice.count("_")
-        if b_count % 2 != 0 or u_count % 2 != 0:
+        if b_count % 2 != 0 or u_count % 2 != 0 or splits_bold_marker(prefix_len):
             prefix_len -= 1
         else:
             break
@@ -105,7 +109,7 @@ def _trim_common_context(target: str, new_val: str) -> tuple[int, int]:
         text_slice = target[len(target) - suffix_len :]
         b_count = text_slice.count("**")
         u_count = text_slice.count("_")
-        if b_count % 2 != 0 or u_count % 2 != 0:
+        if b_count % 2 != 0 or u_count % 2 != 0 or splits_bold_marker(len(target) - suffix_len):
             suffix_len -= 1
         else:
             break
